@@ -53,6 +53,27 @@ KEEP = ("kind", "name", "opcode", "value", "castKind", "isArrow", "isPostfix", "
         "explicitlyDefaulted", "explicitlyDeleted", "tagUsed", "init", "isBitfield", "mutable", "nonOdrUseReason", "hasElse", "isConstexpr", "depth", "index", "isParameterPack")
 # NOTE "defaultArg" of template parameters is a nested node and is kept through "inner"/"defaultArg" below
 
+_alpha = {}   # id of a local variable / parameter declaration -> positional name (alpha-normalisation: renaming a local is harmless)
+
+def collect_locals(n, acc):
+    if isinstance(n, list):
+        for x in n: collect_locals(x, acc)
+    elif isinstance(n, dict):
+        if n.get("kind") in ("ParmVarDecl", "VarDecl", "BindingDecl") and "id" in n and n["id"] not in acc:
+            acc[n["id"]] = "$%d" % len(acc)
+        for v in n.values():
+            if isinstance(v, (list, dict)): collect_locals(v, acc)
+
+def canon_fn(n):
+    """canonical form of one function definition with its parameters and local variables renamed positionally"""
+    global _alpha
+    _alpha = {}
+    collect_locals(n.get("inner", []), _alpha)
+    try:
+        return canon(n)
+    finally:
+        _alpha = {}
+
 def canon(n):
     if isinstance(n, list): return [canon(x) for x in n]
     if not isinstance(n, dict): return n
@@ -60,10 +81,11 @@ def canon(n):
     out = {}
     for k in KEEP:
         if k in n: out[k] = n[k]
+    if n.get("id") in _alpha: out["name"] = _alpha[n["id"]]
     if isinstance(n.get("type"), dict) and "qualType" in n["type"]: out["type"] = n["type"]["qualType"]
     rd = n.get("referencedDecl")
     if isinstance(rd, dict):
-        out["ref"] = {"kind": rd.get("kind"), "name": rd.get("name"), "type": (rd.get("type") or {}).get("qualType")}
+        out["ref"] = {"kind": rd.get("kind"), "name": _alpha.get(rd.get("id"), rd.get("name")), "type": (rd.get("type") or {}).get("qualType")}
     if "inner" in n:
         out["inner"] = [c for c in (canon(x) for x in n["inner"]) if c is not None]
     if isinstance(n.get("defaultArg"), dict):
@@ -118,11 +140,11 @@ def collect(node, ctx, found):
             # the template pattern only (instantiations depend on the translation unit)
             pat = templ[0]
             tparams = [canon(c) for c in node.get("inner", []) if isinstance(c, dict) and c.get("kind") in ("TemplateTypeParmDecl", "NonTypeTemplateParmDecl", "TemplateTemplateParmDecl")]
-            found.append(("::".join(ctx + [node.get("name", "?")]) + " [template] " + (pat.get("type") or {}).get("qualType", ""), None, {"params": tparams, "pattern": canon(pat)}))
+            found.append(("::".join(ctx + [node.get("name", "?")]) + " [template] " + (pat.get("type") or {}).get("qualType", ""), None, {"params": tparams, "pattern": canon_fn(pat)}))
         return
     if k in ("FunctionDecl", "CXXMethodDecl", "CXXConstructorDecl", "CXXDestructorDecl", "CXXConversionDecl"):
         if has_body(node):
-            found.append(("::".join(ctx + [node.get("name", "?")]) + " " + (node.get("type") or {}).get("qualType", ""), node.get("mangledName"), canon(node)))
+            found.append(("::".join(ctx + [node.get("name", "?")]) + " " + (node.get("type") or {}).get("qualType", ""), node.get("mangledName"), canon_fn(node)))
         return
 
 def load(repo, rel):
